@@ -101,3 +101,23 @@ Proof. exact good_runs. Qed.
 Example C03_failing_program_fails :
   exists rs sk stk, run_interp 200 spgood_failing [] = TDone rs sk stk /\ all_passed rs = false /\ map fail_count rs = [0; 2].
 Proof. exact good_failing_runs. Qed.
+
+(* ---- arrays (array literals, at, array_length in functions and shadow blocks) ----
+   All theorems above cover them.  names_apart has one more clause: the first element of a literal contains no call --
+   the evaluator evaluates that element twice (src/eval.c AST_ARRAY_LITERAL: once "to determine the type", once in the
+   loop), which nothing can observe when it contains no call ... *)
+Example C03_arrays_agree :
+  names_apart sparr_good = true /\
+  exists rs sk stk, run_interp 60 sparr_good [] = TDone rs sk stk /\ all_passed rs = true /\
+    map tr_out rs = [[56; 10; 91; 55; 44; 32; 56; 44; 32; 57; 93; 10]]%N /\
+    ref_tests 60 sparr_good = Some [(4%N, Ok (CNormal, [(7%N, (false, VArr [7; 8; 9]%Z))]) [56; 10; 91; 55; 44; 32; 56; 44; 32; 57; 93; 10]%N)].
+Proof. exact arrays_agree. Qed.
+
+(* ... and without that clause the statement is false: [(f2 8), 9] with f2 printing its argument prints "8" twice at compile
+   time, once in the language (witness replayed on the real nanoc: finding c03:array-literal-first-element-twice) *)
+Theorem C03_array_literal_first_element_twice_refuted :
+  refutes_text sparr_twice 60 /\
+  ref_tests 60 sparr_twice = Some [(4%N, Ok (CNormal, [(7%N, (false, VArr [8; 9]%Z))]) [56; 10]%N)] /\
+  exists rs sk stk, run_interp 60 sparr_twice [] = TDone rs sk stk /\ map tr_out rs = [[56; 10; 56; 10]]%N.
+Proof. exact refuted_first_element_twice. Qed.
+Print Assumptions C03_array_literal_first_element_twice_refuted.
